@@ -738,13 +738,19 @@ func (a *A) globalWindowBarrier() map[ssa.Value]bool {
 	if !ok1 || !ok2 {
 		return out
 	}
-	isGlobalGuard := func(c ssa.Value) bool {
-		bo, ok := c.(*ssa.BinOp)
-		if !ok || bo.Op != token.EQL {
-			return false
+	globalCmp := func(op token.Token) func(c ssa.Value) bool {
+		return func(c ssa.Value) bool {
+			bo, ok := c.(*ssa.BinOp)
+			if !ok || bo.Op != op {
+				return false
+			}
+			k, ok := bo.Y.(*ssa.Const)
+			return ok && k.Value != nil && strings.Contains(k.Value.ExactString(), "global") && isFieldOf(TermOf(bo.X, nil), "types.WindowConfig", "Type")
 		}
-		k, ok := bo.Y.(*ssa.Const)
-		return ok && k.Value != nil && strings.Contains(k.Value.ExactString(), "global") && isFieldOf(TermOf(bo.X, nil), "types.WindowConfig", "Type")
+	}
+	// under `Type == TypeGlobal`, or past `if Type != TypeGlobal { …; return }`
+	underGlobal := func(b *ssa.BasicBlock) bool {
+		return guardedByValue(b, globalCmp(token.EQL), true) || guardedByValue(b, globalCmp(token.NEQ), false)
 	}
 	// a helper whose every call site is on that branch of processWindowBatch reads the same rows
 	for _, h := range a.helpersOf(fn) {
@@ -754,7 +760,7 @@ func (a *A) globalWindowBarrier() map[ssa.Value]bool {
 		}
 		all := true
 		for _, e := range node.In {
-			if e.Caller.Func != fn || !guardedByValue(e.Site.Block(), isGlobalGuard, true) {
+			if e.Caller.Func != fn || !underGlobal(e.Site.Block()) {
 				all = false
 			}
 		}
@@ -794,14 +800,7 @@ func (a *A) globalWindowBarrier() map[ssa.Value]bool {
 		if v == nil {
 			return
 		}
-		if guardedByValue(in.Block(), func(c ssa.Value) bool {
-			bo, ok := c.(*ssa.BinOp)
-			if !ok || bo.Op != token.EQL {
-				return false
-			}
-			k, ok := bo.Y.(*ssa.Const)
-			return ok && k.Value != nil && strings.Contains(k.Value.ExactString(), "global") && isFieldOf(TermOf(bo.X, nil), "types.WindowConfig", "Type")
-		}, true) {
+		if underGlobal(in.Block()) {
 			out[v] = true
 		}
 	})
